@@ -6,6 +6,8 @@ CONSTANT Acc <- MCAcc
 CONSTANT Opt <- MCOpt
 CONSTANT Mdl <- MCMdl
 CONSTANT InPlace <- MCInPlace
+CONSTANT Needs <- MCNeeds
+CONSTANT Establishes <- MCEst
 CONSTANT MaxLen = 3
 CONSTANT Policy = "clear_at_entry"
 CONSTANT SeedsRng = TRUE
@@ -15,5 +17,6 @@ INVARIANT HistoryIndependent
 INVARIANT NoFailureFromHistory
 INVARIANT CallerStateUntouched
 INVARIANT ContainerIndependent
+INVARIANT EntryPointIndependent
 INVARIANT NoExposure
 CHECK_DEADLOCK FALSE
